@@ -1,4 +1,5 @@
 import RV.C02.Model
+import RV.C02.Conc
 import RV.Base.Proto
 /-
   C02 driver.  Terms and graph keys are naturals owned by the harness.
@@ -28,11 +29,21 @@ import RV.Base.Proto
     vpath k K s o                    -> k
     setdu T b                        -> ok       (`top.default_union = b` at run time)
     iter d                           -> sorted quads   (`Dataset.__iter__`)
+    iadd d s,p,o,G …                 -> ok | AssertionError   (`Dataset.__iadd__`: `ds += quads`)
+    graphnew d n                     -> ok       (`ds.graph()` / `graph(None)`: the n-th fresh name, key 200+n)
+    cerr                             -> ok | raised   (did any store operation of the concrete Memory model raise)
+
+  Round g: the driver runs TWO models in lockstep on every line — the Dataset layer over C01's concrete
+  `Memory` model (`RV.C02.Conc`, three indexes / context compression / `__contextTriples` / `__all_contexts`)
+  and the same layer over the abstract set of quads (`RV.C02.Model`).  The answer printed is the one of the
+  CONCRETE composition; if the abstract model answers differently (impossible by `conc_answers_agree`)
+  the line gets the suffix ` !abstract=<answer>` and so differs from every implementation answer.
 -/
 open RV RV.C02 RV.Proto
 
 structure St where
   mem : Mem
+  cm : Conc.CMem
   duD : Bool
   duC : Bool
 
@@ -124,132 +135,168 @@ def choice? (pos l x y : String) : Option Choice := do
 def pathKind? (w : String) : Option Unit :=
   if w = "seq" || w = "alt" || w = "inv" || w = "star" then some () else none
 
+/-- concrete answer, flagged when the abstract model disagrees -/
+def both (c a : String) : String := if a = c then c else c ++ " !abstract=" ++ a
+
+def freshKey (n : Nat) : Key := 200 + n
+
 def step (s : St) : List String → St × String
   | ["reset", a, b] =>
     match bool? a, bool? b with
-    | some a, some b => (⟨Mem.empty, a, b⟩, "ok")
+    | some a, some b => (⟨Mem.empty, RV.C01.Mem.init, a, b⟩, "ok")
     | _, _ => (s, "bad-op")
   | ["add", w, a, b, c, g] =>
     match top? w, triple3? a b c, garg? g with
-    | some w, some t, some g => ({ s with mem := cgAdd (s.cfg w) s.mem t g }, "ok")
+    | some w, some t, some g =>
+      ({ s with mem := cgAdd (s.cfg w) s.mem t g, cm := Conc.cgAdd (s.cfg w) s.cm t g }, "ok")
     | _, _, _ => (s, "bad-op")
   | "addn" :: w :: qs =>
     match top? w, qs.mapM quadArg? with
     | some w, some qs =>
       let r := cgAddN (s.cfg w) s.mem qs
-      ({ s with mem := r.1 }, if r.2 then "ok" else "AssertionError")
+      let rc := Conc.cgAddN (s.cfg w) s.cm qs
+      ({ s with mem := r.1, cm := rc.1 },
+        both (if rc.2 then "ok" else "AssertionError") (if r.2 then "ok" else "AssertionError"))
+    | _, _ => (s, "bad-op")
+  | "iadd" :: w :: qs =>
+    match top? w, qs.mapM quadArg? with
+    | some true, some qs =>
+      let r := cgAddN (s.cfg true) s.mem qs
+      let rc := Conc.dsIadd (s.cfg true) s.cm qs
+      ({ s with mem := r.1, cm := rc.1 },
+        both (if rc.2 then "ok" else "AssertionError") (if r.2 then "ok" else "AssertionError"))
     | _, _ => (s, "bad-op")
   | ["remove", w, a, b, c, g] =>
     match top? w, tq? a b c g with
-    | some w, some tq => ({ s with mem := cgRemove (s.cfg w) s.mem tq }, "ok")
+    | some w, some tq =>
+      ({ s with mem := cgRemove (s.cfg w) s.mem tq, cm := Conc.cgRemove (s.cfg w) s.cm tq }, "ok")
     | _, _ => (s, "bad-op")
   | ["triples", w, a, b, c, g, ctx] =>
     match top? w, tq? a b c g, garg? ctx with
     | some w, some tq, some ctx =>
       let r := cgTriples (s.cfg w) s.mem tq (ctx.getD .none)
-      ({ s with mem := r.1 }, showTriples r.2)
+      let rc := Conc.cgTriples (s.cfg w) s.cm tq (ctx.getD .none)
+      ({ s with mem := r.1, cm := rc.1 }, both (showTriples rc.2) (showTriples r.2))
     | _, _, _ => (s, "bad-op")
   | ["contains", w, a, b, c, g] =>
     match top? w, tq? a b c g with
     | some w, some tq =>
       let r := cgContains (s.cfg w) s.mem tq
-      ({ s with mem := r.1 }, showBool r.2)
+      let rc := Conc.cgContains (s.cfg w) s.cm tq
+      ({ s with mem := r.1, cm := rc.1 }, both (showBool rc.2) (showBool r.2))
     | _, _ => (s, "bad-op")
   | ["quads", w, "nil"] =>
     match top? w with
     | some w =>
       let r := cgQuads (s.cfg w) s.mem .nil
-      ({ s with mem := r.1 }, showQuads r.2)
+      let rc := Conc.cgQuads (s.cfg w) s.cm .nil
+      ({ s with mem := r.1, cm := rc.1 }, both (showQuads rc.2) (showQuads r.2))
     | none => (s, "bad-op")
   | ["quads", w, a, b, c, g] =>
     match top? w, tq? a b c g with
     | some w, some tq =>
       let r := cgQuads (s.cfg w) s.mem tq
-      ({ s with mem := r.1 }, showQuads r.2)
+      let rc := Conc.cgQuads (s.cfg w) s.cm tq
+      ({ s with mem := r.1, cm := rc.1 }, both (showQuads rc.2) (showQuads r.2))
     | _, _ => (s, "bad-op")
   | ["graphs", w] =>
     match top? w with
     | some w =>
       let r := cgGraphs (s.cfg w) s.mem
-      ({ s with mem := r.1 }, showKeys r.2)
+      let rc := Conc.cgGraphs (s.cfg w) s.cm
+      ({ s with mem := r.1, cm := rc.1 }, both (showKeys rc.2) (showKeys r.2))
     | none => (s, "bad-op")
   | ["graphsof", w, a, b, c] =>
     match top? w, triple3? a b c with
-    | some _, some t => (s, showKeys (cgGraphsOf s.mem t))
+    | some _, some t => (s, both (showKeys (Conc.cgGraphsOf s.cm t)) (showKeys (cgGraphsOf s.mem t)))
     | _, _ => (s, "bad-op")
   | ["graph", w, g] =>
     match top? w, garg? g with
     | some true, some (some g) =>
       match g.key with
-      | some _ => ({ s with mem := dsGraph (s.cfg true) s.mem g }, "ok")
+      | some _ =>
+        ({ s with mem := dsGraph (s.cfg true) s.mem g, cm := Conc.dsGraph (s.cfg true) s.cm g }, "ok")
       | none => (s, "bad-op")
+    | _, _ => (s, "bad-op")
+  | ["graphnew", w, n] =>
+    match top? w, n.toNat? with
+    | some true, some n =>
+      ({ s with mem := dsGraph (s.cfg true) s.mem (.ident (freshKey n)),
+                cm := Conc.dsGraphFresh (s.cfg true) s.cm (freshKey n) }, "ok")
     | _, _ => (s, "bad-op")
   | ["rmgraph", w, k] =>
     match top? w, k.toNat? with
-    | some true, some k => ({ s with mem := dsRemoveGraph (s.cfg true) s.mem k }, "ok")
+    | some true, some k =>
+      ({ s with mem := dsRemoveGraph (s.cfg true) s.mem k, cm := Conc.dsRemoveGraph (s.cfg true) s.cm k }, "ok")
     | _, _ => (s, "bad-op")
   | ["rmctx", w, k] =>
     match top? w, k.toNat? with
-    | some _, some k => ({ s with mem := cgRemoveContext s.mem k }, "ok")
+    | some _, some k => ({ s with mem := cgRemoveContext s.mem k, cm := Conc.cgRemoveContext s.cm k }, "ok")
     | _, _ => (s, "bad-op")
   | ["len", w] =>
     match top? w with
-    | some _ => (s, toString (cgLen s.mem))
+    | some _ => (s, both (toString (Conc.cgLen s.cm)) (toString (cgLen s.mem)))
     | none => (s, "bad-op")
   | ["vadd", k, a, b, c] =>
     match k.toNat?, triple3? a b c with
-    | some k, some t => ({ s with mem := vAdd s.mem k t }, "ok")
+    | some k, some t => ({ s with mem := vAdd s.mem k t, cm := Conc.vAdd s.cm k t }, "ok")
     | _, _ => (s, "bad-op")
   | ["vremove", k, a, b, c] =>
     match k.toNat?, pat? a b c with
-    | some k, some p => ({ s with mem := vRemove s.mem k p }, "ok")
+    | some k, some p => ({ s with mem := vRemove s.mem k p, cm := Conc.vRemove s.cm k p }, "ok")
     | _, _ => (s, "bad-op")
   | ["vtriples", k, a, b, c] =>
     match k.toNat?, pat? a b c with
-    | some k, some p => (s, showTriples (vTriples s.mem k p))
+    | some k, some p => (s, both (showTriples (Conc.vTriples s.cm k p)) (showTriples (vTriples s.mem k p)))
     | _, _ => (s, "bad-op")
   | ["vcontains", k, a, b, c] =>
     match k.toNat?, pat? a b c with
-    | some k, some p => (s, showBool (vContains s.mem k p))
+    | some k, some p => (s, both (showBool (Conc.vContains s.cm k p)) (showBool (vContains s.mem k p)))
     | _, _ => (s, "bad-op")
   | ["vlen", k] =>
     match k.toNat? with
-    | some k => (s, toString (vLen s.mem k))
+    | some k => (s, both (toString (Conc.vLen s.cm k)) (toString (vLen s.mem k)))
     | none => (s, "bad-op")
-  | ["sctx"] => (s, showKeys s.mem.allc)
+  | ["sctx"] => (s, both (showKeys (Conc.storeContexts s.cm)) (showKeys s.mem.allc))
+  | ["cerr"] => (s, if s.cm.err then "raised" else "ok")
   | ["setdu", w, b] =>
     match top? w, bool? b with
     | some w, some b =>
       let r := stepS (s.cfg w, s.mem) (.setUnion b)
-      (if w then { s with duD := r.1.du, mem := r.2 } else { s with duC := r.1.du, mem := r.2 }, "ok")
+      let rc := Conc.stepS (s.cfg w, s.cm) (.setUnion b)
+      (if w then { s with duD := rc.1.du, mem := r.2, cm := rc.2 } else { s with duC := rc.1.du, mem := r.2, cm := rc.2 }, "ok")
     | _, _ => (s, "bad-op")
   | ["iter", w] =>
     match top? w with
     | some true =>
       let r := dsIter (s.cfg true) s.mem
-      ({ s with mem := r.1 }, showQuads r.2)
+      let rc := Conc.dsIter (s.cfg true) s.cm
+      ({ s with mem := r.1, cm := rc.1 }, both (showQuads rc.2) (showQuads r.2))
     | _ => (s, "bad-op")
   | ["choices", w, pos, l, x, y, ctx] =>
     match top? w, choice? pos l x y, garg? ctx with
     | some w, some ch, some ctx =>
       let r := cgTriplesChoices (s.cfg w) s.mem ch (ctx.getD .none)
-      ({ s with mem := r.1 }, showTriples r.2)
+      let rc := Conc.cgTriplesChoices (s.cfg w) s.cm ch (ctx.getD .none)
+      ({ s with mem := r.1, cm := rc.1 }, both (showTriples rc.2) (showTriples r.2))
     | _, _, _ => (s, "bad-op")
   | ["vchoices", k, pos, l, x, y] =>
     match k.toNat?, choice? pos l x y with
-    | some k, some ch => (s, showTriples (vChoices s.mem k ch))
+    | some k, some ch => (s, both (showTriples (Conc.vChoices s.cm k ch)) (showTriples (vChoices s.mem k ch)))
     | _, _ => (s, "bad-op")
   | ["path", w, kind, a, c, g, ctx] =>
     match top? w, pathKind? kind, tq? a "*" c g, garg? ctx with
     | some w, some _, some tq, some ctx =>
       let r := cgTriples (s.cfg w) s.mem tq (ctx.getD .none)
-      ({ s with mem := r.1 }, showOptKey (cgPathGraph (s.cfg w) tq (ctx.getD .none)))
+      let rc := Conc.cgTriples (s.cfg w) s.cm tq (ctx.getD .none)
+      ({ s with mem := r.1, cm := rc.1 }, showOptKey (cgPathGraph (s.cfg w) tq (ctx.getD .none)))
     | _, _, _, _ => (s, "bad-op")
   | ["pathin", w, kind, a, c, g] =>
     match top? w, pathKind? kind, tq? a "*" c g with
     | some w, some _, some tq =>
       let r := cgContains (s.cfg w) s.mem tq
-      ({ s with mem := r.1 }, showOptKey (cgPathGraphContains (s.cfg w) tq))
+      let rc := Conc.cgContains (s.cfg w) s.cm tq
+      ({ s with mem := r.1, cm := rc.1 }, showOptKey (cgPathGraphContains (s.cfg w) tq))
     | _, _, _ => (s, "bad-op")
   | ["vpath", k, kind, a, c] =>
     match k.toNat?, pathKind? kind, pat? a "*" c with
@@ -257,4 +304,4 @@ def step (s : St) : List String → St × String
     | _, _, _ => (s, "bad-op")
   | _ => (s, "bad-op")
 
-def main : IO Unit := RV.Proto.run step (⟨Mem.empty, false, true⟩ : St)
+def main : IO Unit := RV.Proto.run step (⟨Mem.empty, RV.C01.Mem.init, false, true⟩ : St)
